@@ -1,5 +1,6 @@
 (* Correspondence cases for C12: one sequential history, run by the driver through backend.NewBackend on every
-   engine from the same initial revision.  c12_check: every transcript is what the request programs of
+   engine configuration from the same initial revision (the split-region TiKV mocks are recorded as ETiKV: the region
+   layout is not part of the adapter model).  c12_check: every transcript is what the request programs of
    Model/BackendSeq.v produce over that engine's adapter model.  c12_oracle: the property on the implementation's
    own observations — the transcripts (responses and watch events) of all engines are the same. *)
 From KB Require Export Model.BackendSeq Model.C11Cases.
@@ -44,10 +45,23 @@ Definition same_transcript (a b : c12_run) : bool :=
 Definition writes_empty (q : req) : bool :=
   match q with QCreate _ [] | QUpdate _ [] _ => true | _ => false end.
 
+Fixpoint first_empty_write (qs : list req) : option nat :=
+  match qs with
+  | [] => None
+  | q :: rest => if writes_empty q then Some O else option_map S (first_empty_write rest)
+  end.
+
+(* a disagreement counts as the known deviation only if the engines still agree on every response before the
+   first write of an empty value *)
 Definition c12_oracle (c : c12_case) : option N :=
   match h_runs c with
   | [] => None
   | r0 :: rest =>
       if forallb (same_transcript r0) rest then None
-      else if existsb writes_empty (h_reqs c) then Some 1 else Some 0
+      else match first_empty_write (h_reqs c) with
+           | Some i =>
+               if forallb (fun r => list_eqb resp_eqb (firstn i (r_resps r0)) (firstn i (r_resps r))) rest
+               then Some 1 else Some 0
+           | None => Some 0
+           end
   end.
